@@ -5,6 +5,7 @@
   fold / sum / max over that history - no incremental state.
 -/
 import IpfixModel.Model.Agg
+import IpfixModel.Model.FlowKey
 namespace Ipfix.C05
 open Agg
 
@@ -128,8 +129,35 @@ def checkShown (h : List Ev) (s : Shown) : Option String :=
   else if s.thr != e.thr then some "common-throughput"
   else none
 
+/-- what the implementation answered for a record's flow key: `none` = it refused the record; else the key as a
+    text (its five components as the harness prints them), the three numeric components, the IPv4 flag -/
+structure KeyAnswer where
+  text : String
+  proto : Nat
+  sport : Nat
+  dport : Nat
+  bothV4 : Bool
+  deriving Repr, Inhabited
+
+/-- the flow-key judgement (`agg key`), on the implementation's answers alone: a record is refused exactly when it
+    lacks an element the key needs; the numeric components are the record's; the flag says that both IPv4 addresses
+    were there; and against EVERY earlier record of the session the answer is the same key exactly when the two
+    records denote the same 5-tuple (`FlowKey.sameTuple`) - "one flow record per distinct 5-tuple" -/
+def judgeKey (seen : List (FlowKey.KeyRec × String)) (r : FlowKey.KeyRec) (ans : Option KeyAnswer) : Option String :=
+  match FlowKey.flowKey r, ans with
+  | none, none => none
+  | none, some _ => some "key-for-incomplete-record"
+  | some _, none => some "complete-record-refused"
+  | some _, some a =>
+    if some a.proto != r.proto || some a.sport != r.sport || some a.dport != r.dport then some "component"
+    else if a.bothV4 != (r.src4.isSome && r.dst4.isSome) then some "ipv4-flag"
+    else if seen.any (fun p => (p.2 == a.text) != FlowKey.sameTuple p.1 r) then some "same-key-iff-same-tuple"
+    else none
+
 structure Tracker where
   flows : List (Nat × List Ev) := []
+  /-- the records whose flow key the session has asked for, with the implementation's answers (`agg key`) -/
+  keys : List (FlowKey.KeyRec × String) := []
   /-- the session left the specification's domain (a record whose template lacks elements, `omit=`:
       the aggregation may refuse it half-way): nothing is judged until the next session starts -/
   off : Bool := false
